@@ -101,6 +101,13 @@ class GhostFn:
         self.name = name
 
 
+class GhostProp:
+    """Ghost *property* stored as an SObj field: h(interp) is evaluated on every read."""
+
+    def __init__(self, h):
+        self.h = h
+
+
 class SFunc:
     """Closure for a lambda / nested def met during symbolic execution."""
 
@@ -680,6 +687,10 @@ class Interp:
             self.exec_block(node.body, frame)
         except _Return:
             pass
+        if "__yield_result__" in frame.locals:
+            if out:
+                raise Unsupported("generator yields outside its filter loop")
+            return frame.locals["__yield_result__"]
         return out
 
     def bind_args(self, frame, a, fn, args, kwargs):
@@ -993,6 +1004,14 @@ class Interp:
         spec = self.loop_specs.get((frame.qn, ordinal))
         if spec is not None:
             return spec(self, node, frame, it)
+        if "__yield__" in frame.locals and (type(it).__name__ == "SFiltered" or (isinstance(it, SSeq) and not z3.is_int_value(z3.simplify(to_int(it.length))))):
+            # generator whose body is a filter loop over a symbolic sequence: the generator *is* the filtered subsequence
+            from . import seqs
+
+            if frame.locals["__yield__"]:
+                raise Unsupported("generator yields before its filter loop")
+            frame.locals["__yield_result__"] = seqs.generator_filter_loop(self, node, frame, it)
+            return
         items = self.iterate(it)
         broke = False
         for x in items:
@@ -1830,7 +1849,10 @@ class Interp:
 
     def obj_getattr(self, obj, name):
         if name in obj.fields:
-            return obj.fields[name]
+            v = obj.fields[name]
+            if isinstance(v, GhostProp):
+                return v.h(self)
+            return v
         if name == "__class__":
             return obj.cls
         if obj.cls is None:
@@ -2452,7 +2474,8 @@ def invariant_loop(label, modifies, inv, elem=None, on_havoc=None):
     supported (Unsupported), `continue` is."""
 
     def spec(it, node, frame, seq):
-        if not isinstance(seq, SSeq):
+        filt = type(seq).__name__ == "SFiltered" and getattr(seq, "objects", False)
+        if not isinstance(seq, SSeq) and not filt:
             # concrete iteration: plain unrolling is exact
             items = it.iterate(seq)
             for x in items:
@@ -2465,7 +2488,8 @@ def invariant_loop(label, modifies, inv, elem=None, on_havoc=None):
         if node.orelse:
             raise Unsupported("for-else under loop contract")
         path = it.path
-        n = to_int(seq.length)
+        # a filtered subsequence is walked over the index of the underlying sequence: the body runs at k iff cond(k)
+        n = to_int(seq.n if filt else seq.length)
         env0 = dict(frame.locals)
         path.oblige("%s.inv.init" % label, inv(env0, z3.IntVal(0)), kind="inv")
         leg = path.fork([z3.BoolVal(True), z3.BoolVal(True)]) if False else path.fork_free(2)
@@ -2480,7 +2504,10 @@ def invariant_loop(label, modifies, inv, elem=None, on_havoc=None):
             k = path.fresh("k", z3.IntSort())
             path.assume(z3.And(k >= 0, k < n))
             path.assume(inv(dict(frame.locals), k))
-            x = seq.get(k) if elem is None else elem(it, k)
+            if filt and not path.branch(seq.cond(k)):
+                path.oblige("%s.inv.keep" % label, inv(dict(frame.locals), k + 1), kind="inv")
+                raise PathDone()
+            x = (seq.elt(k) if filt else seq.get(k)) if elem is None else elem(it, k)
             it.assign(node.target, x, frame)
             try:
                 it.exec_block(node.body, frame)
